@@ -37,6 +37,34 @@ def run(ctx):
     _source_vs_python(ctx, model)
     _to_function(ctx, model)
     check_importer(ctx, model, "C13")
+    _compiled_polynomial(ctx, model)
+
+
+def _compiled_polynomial(ctx, model):
+    """CompileMapper.map_polynomial writes a Horner scheme as text; the text,
+    read as Python source over atoms B (the base) and C0, C1, ... (the
+    coefficients, each printed as an atom), must denote sum C_i * B**e_i --
+    interpreted abstractly (pv/absint.py) on enumerated exponent shapes"""
+    from .. import kernels
+    from ..grammar import _consts
+    cm = model.cls("pymbolic.compiler:CompileMapper")
+    mem = model.lookup(cm, "map_polynomial")
+    if mem is None or mem.kind != "func":
+        raise AnalysisError("CompileMapper.map_polynomial not found")
+    consts = _consts(model, model.repo.module("pymbolic.mapper.stringifier"),
+                     "PREC_")
+    if len(consts) < 8:
+        raise AnalysisError("precedence constants not found")
+    wit = kernels.horner_text_rule(mem.node, consts)
+    ctx.ob("P/CompileMapper.map_polynomial/text-value", not wit,
+           mem.owner.module.loc(mem.node),
+           "the generated text denotes sum coeff * base**exp on "
+           f"{len(kernels.EXPONENT_SHAPES) - 1} exponent shapes" if not wit else
+           "the text generated for a Polynomial does not denote sum coeff * "
+           "base**exp: " + "; ".join(
+               f"exponents {e} (enclosing precedence {p_}): '{got}' instead of "
+               f"{want}" for e, p_, got, want in wit[:3]),
+           {"shapes": [list(e) for e in kernels.EXPONENT_SHAPES[1:]]})
 
 
 # ---------------------------------------------------------------------------
